@@ -5,7 +5,7 @@
       written (the property the F14 defect violated);
     - [intersect_halfplanes_sound] / [intersect_halfplanes_complete]: the returned points are
       exactly the pairwise intersections (i < j, not parallel) that no third halfplane puts
-      outside, in loop order; no index error as long as fewer than 3n points are valid.
+      outside, in loop order; no index error as long as at most n(n-1)/2 points are valid.
     Over the reals:
     - [vertex_on_lines], [vertex_feasible]: such a point lies on both lines and satisfies every
       other halfplane up to EPSILON;
@@ -136,13 +136,13 @@ Section Generic.
   Qed.
 
   Theorem intersect_halfplanes_sound (hs : list (HP F)) (pts : list (V2 F)) :
-    intersect_halfplanes hs = Ok pts -> Forall (is_vertex hs) pts /\ length pts < 3 * length hs.
+    intersect_halfplanes hs = Ok pts -> Forall (is_vertex hs) pts /\ length pts < hp_cap (length hs).
   Proof.
     unfold intersect_halfplanes.
-    destruct (outer_loop hs (3 * length hs) hs 0 []) as [r|e] eqn:Ho; cbn [bind]; [|discriminate].
-    destruct (length r <? 3 * length hs) eqn:Hl; [|discriminate].
+    destruct (outer_loop hs (hp_cap (length hs)) hs 0 []) as [r|e] eqn:Ho; cbn [bind]; [|discriminate].
+    destruct (length r <? hp_cap (length hs)) eqn:Hl; [|discriminate].
     intros H. injection H as <-. split.
-    - apply (outer_loop_sound hs (3 * length hs) hs 0 [] r); auto.
+    - apply (outer_loop_sound hs (hp_cap (length hs)) hs 0 [] r); auto.
     - apply Nat.ltb_lt. exact Hl.
   Qed.
 
@@ -211,14 +211,70 @@ Section Generic.
     intersect_halfplanes hs = Ok pts -> forall p, is_vertex hs p -> In p pts.
   Proof.
     unfold intersect_halfplanes.
-    destruct (outer_loop hs (3 * length hs) hs 0 []) as [r|e] eqn:Ho; cbn [bind]; [|discriminate].
-    destruct (length r <? 3 * length hs); [|discriminate].
+    destruct (outer_loop hs (hp_cap (length hs)) hs 0 []) as [r|e] eqn:Ho; cbn [bind]; [|discriminate].
+    destruct (length r <? hp_cap (length hs)); [|discriminate].
     intros H p (i & j & hi & hj & Hij & Hi & Hj & Hp & Hall). injection H as <-.
-    apply (outer_loop_complete hs (3 * length hs) hs 0 [] r Ho i (j - S i) hi hj p Hi).
+    apply (outer_loop_complete hs (hp_cap (length hs)) hs 0 [] r Ho i (j - S i) hi hj p Hi).
     - replace (i + S (j - S i)) with j by lia. exact Hj.
     - exact Hp.
     - cbn [Nat.add]. replace (i + S (j - S i)) with j by lia.
       apply valid_from_spec. intros idx hk Hk Hki Hkj. cbn [Nat.add] in Hki, Hkj. apply (Hall idx hk Hk Hki Hkj).
+  Qed.
+
+  (** With one row per pair of halfplanes (/repo f6c3926) the point buffer can never overflow and the
+      final assertion can never fail: [intersect_halfplanes] is total (index safe). *)
+  Fixpoint npairs {A} (l : list A) : nat := match l with [] => 0 | _ :: t => length t + npairs t end.
+
+  Lemma npairs_double {A} (l : list A) : 2 * npairs l = length l * (length l - 1).
+  Proof.
+    induction l as [|a l IH]; cbn [npairs length]; [reflexivity|].
+    destruct l as [|b l]; [cbn; lia|].
+    cbn [length] in *. replace (S (length l) - 1) with (length l) in IH by lia.
+    replace (S (S (length l)) - 1) with (S (length l)) by lia. nia.
+  Qed.
+  Lemma npairs_cap {A} (l : list A) : npairs l < hp_cap (length l).
+  Proof.
+    unfold hp_cap. rewrite <- npairs_double.
+    replace (2 * npairs l) with (npairs l * 2) by lia. rewrite Nat.div_mul by lia. lia.
+  Qed.
+
+  Lemma inner_loop_total (hs : list (HP F)) (cap i : nat) (hi : HP F) :
+    forall (js : list (HP F)) (j : nat) (acc : list (V2 F)),
+      length acc + length js < cap ->
+      exists r, inner_loop hs cap i hi js j acc = Ok r /\ length r <= length acc + length js.
+  Proof.
+    induction js as [|hj js IH]; intros j acc Hc; cbn [inner_loop length] in *.
+    - exists acc. split; [reflexivity|lia].
+    - destruct (intersect_two_halfplanes hi hj) as [p|].
+      2:{ destruct (IH (S j) acc) as (r & Hr & Hl); [lia|]. exists r. split; [exact Hr|lia]. }
+      destruct (valid_from hs 0 i j p).
+      2:{ destruct (IH (S j) acc) as (r & Hr & Hl); [lia|]. exists r. split; [exact Hr|lia]. }
+      replace (length acc <? cap) with true by (symmetry; apply Nat.ltb_lt; lia).
+      destruct (IH (S j) (acc ++ [p])) as (r & Hr & Hl); [rewrite app_length; cbn; lia|].
+      exists r. split; [exact Hr|]. rewrite app_length in Hl. cbn in Hl. lia.
+  Qed.
+
+  Lemma outer_loop_total (hs : list (HP F)) (cap : nat) :
+    forall (rest : list (HP F)) (i : nat) (acc : list (V2 F)),
+      length acc + npairs rest < cap ->
+      exists r, outer_loop hs cap rest i acc = Ok r /\ length r <= length acc + npairs rest.
+  Proof.
+    induction rest as [|hi rest IH]; intros i acc Hc; cbn [outer_loop npairs] in *.
+    - exists acc. split; [reflexivity|lia].
+    - destruct (inner_loop_total hs cap i hi rest (S i) acc) as (acc' & Hin & Hl); [lia|].
+      rewrite Hin. cbn [bind].
+      destruct (IH (S i) acc') as (r & Hr & Hl'); [lia|].
+      exists r. split; [exact Hr|lia].
+  Qed.
+
+  Theorem intersect_halfplanes_total (hs : list (HP F)) :
+    exists pts, intersect_halfplanes hs = Ok pts /\ length pts <= npairs hs.
+  Proof.
+    unfold intersect_halfplanes. pose proof (npairs_cap hs) as Hc.
+    destruct (outer_loop_total hs (hp_cap (length hs)) hs 0 []) as (r & Hr & Hl); [cbn; exact Hc|].
+    rewrite Hr. cbn [bind]. cbn [length] in Hl.
+    replace (length r <? hp_cap (length hs)) with true by (symmetry; apply Nat.ltb_lt; lia).
+    exists r. split; [reflexivity|lia].
   Qed.
 
   (** membership is preserved by the ordering and de-duplication steps *)
